@@ -29,6 +29,31 @@ ASSUMPTIONS = [A["A1"], A["A2"], A["A3"], A["A5"], A["A7"], A["ENGINE"],
 LIFTERS = []
 
 WITNESSES = {
+ "F26-wrapped-union-member-under-a-covariance-check": r'''
+from graphql import *
+for wrap in (GraphQLList, GraphQLNonNull):
+    Obj = GraphQLObjectType("Obj", lambda: {"f": GraphQLField(Obj)}, interfaces=lambda: [I])
+    U = GraphQLUnionType("U", lambda: [wrap(Obj)])                  # invalid member: to be reported
+    I = GraphQLInterfaceType("I", lambda: {"f": GraphQLField(U)})   # I.f: U, implemented by Obj.f: Obj
+    Q = GraphQLObjectType("Query", {"o": GraphQLField(Obj)})
+    s = GraphQLSchema(Q)
+    errs = validate_schema(s)
+    assert errs and any("can only include Object types" in e.message for e in errs), errs
+    assert graphql_sync(s, "{ __typename }").errors
+''',
+ "F27-deepcopy-of-an-invalid-schema": r'''
+from copy import deepcopy
+from graphql import build_schema, validate_schema, graphql_sync
+for sdl in ("type Query { f(x: Query): Int }", "type Query { a: Int } type T", "union U type Query { u: U }"):
+    s = build_schema(sdl)
+    c = deepcopy(s)                       # copied before the original was ever validated
+    want = sorted(e.message for e in validate_schema(s))
+    got = sorted(e.message for e in validate_schema(c))
+    assert want and got == want, (sdl, got, want)
+    assert graphql_sync(c, "{ __typename }").errors
+s = build_schema("type Query { a: Int }", assume_valid=True)
+assert deepcopy(s).assume_valid is True       # an explicitly assumed-valid schema stays so
+''',
  "F23-default-reaching-a-nested-output-type": r'''
 from graphql import build_schema, validate_schema
 for sdl in ("type Obj { x: Int } input In { o: Obj } type Query { f(arg: In = { o: {x: 1} }): Int }",
@@ -94,8 +119,10 @@ for sdl in SDLS:
         s = build_schema(sdl)
         if order == "validate-first":
             want = [e.message for e in validate_schema(s)]
+        from copy import deepcopy
         copies = {"GraphQLSchema(**to_kwargs())": GraphQLSchema(**s.to_kwargs()),
-                  "extend_schema(+ type Extra)": None, "lexicographic_sort_schema": None}
+                  "extend_schema(+ type Extra)": None, "lexicographic_sort_schema": None,
+                  "copy.deepcopy": deepcopy(s)}
         try:
             copies["lexicographic_sort_schema"] = lexicographic_sort_schema(s)
         except Exception:
@@ -208,7 +235,7 @@ def _copy_check():
     return [{"id": "C20/bounded/copies-validate-like-the-original",
              "function": "GraphQLSchema.to_kwargs / validate_schema (cached _validation_errors, assume_valid)",
              "tool": "validate_schema on copies vs the original, native",
-             "bound": "10 SDL schemas x copies via GraphQLSchema(**to_kwargs()) and lexicographic_sort_schema x "
+             "bound": "10 SDL schemas x copies via GraphQLSchema(**to_kwargs()), lexicographic_sort_schema and copy.deepcopy x "
                       "copying before / after validating the original",
              "failed": res is not None, "input": res, "output": outp[-1000:]}]
 
